@@ -186,6 +186,15 @@ def run_property(prop, tier, seed, replay=None):
                 from translator import run as trun
                 trep = trun.regenerate(ctx.cfg(), sizes)
                 notes += trep["unsupported"]
+                # AUDIT2: a function (or a row of the dispatch table) that left the translators' subset silently falls back to the
+                # hand model, so its bridge lemma passes on code it no longer describes.  By policy that is not an alarm, but it must not
+                # be invisible either: on the pinned tree nothing is unsupported, so every entry here is a tie lost by an edit.
+                if trep["unsupported"]:
+                    print("TRANSLATOR-DEGRADED property=%s: %d function(s) / table row group(s) of the working tree are outside the translated subset "
+                          "and are tied by the correspondence streams ONLY (their bridge lemmas pass on the fallback):" % (pid, len(trep["unsupported"])))
+                    for u in trep["unsupported"][:40]:
+                        print("  " + u)
+                cov["translator_degraded"] = list(trep["unsupported"])
             except build.BuildError as e:
                 print("BUILD FAILURE (the working tree does not build):\n" + str(e)[-3000:])
                 path = write_replay(pid, 0, {"property": pid, "kind": "build-failure", "detail": str(e)[-3000:]})
